@@ -1,5 +1,6 @@
 import OhkamiModel.M.SessionProofs
 import OhkamiModel.M.SessionSeg
+import OhkamiModel.GenConsts
 /-! # C06 — property theorems about reads and segmentation in the session-loop model -/
 namespace C06
 open Ohkami Ohkami.Session
@@ -70,5 +71,9 @@ example : SegExact (postHead ++ [97], [[98], [99]]) := by
   refine ⟨by decide, by decide, by decide, ?_⟩
   have : ([[98], [99]] : List Bytes).flatten = [98, 99] := by decide
   simp only [this, post_parse]; decide
+
+/-- the announced length is judged (413) before any of the body is loaded, wherever its bytes are — the order the session model's `finish` assumes, read off
+`Request::read` by the translator on every run: a limit applied only when the body still has to be fetched would make the answer depend on the segmentation -/
+theorem source_limits_before_loading : Ohkami.Gen.limitCheckedBeforeLoading = true := by decide
 
 end C06
